@@ -324,6 +324,54 @@ pub fn check_case(mv: &MV, pi: usize, sched: &Sched) -> CaseResult {
     }
 }
 
+/// Atoms at buffer-size thresholds: the same text through every entry point,
+/// under a few short-write limits and through Display (no per-offset error
+/// injection here: the texts are tens of kilobytes long).
+pub fn check_big(mv: &MV) -> CaseResult {
+    let v = mv.to_value();
+    let case = || json!({"big": mv});
+    let fail = |sig: String, msg: String| Failure::new(format!("C07 big {}", sig), msg, case());
+    let r = catch(|| -> Result<(), (String, String)> {
+        let text = lexpr::to_string(&v).map_err(|e| ("reference-print-error".to_string(), e.to_string()))?;
+        let p = POpt::default_set();
+        for k in [4096usize, 1000, 4097, 1] {
+            for entry in 0..ENTRIES.len() {
+                if k == 1 && entry > 0 {
+                    continue;
+                }
+                let mut sink = Sink::new(&Sched::Max(k), None);
+                let res = run_entry(entry, &v, &p, &mut sink);
+                if res.is_err() || sink.buf != text.as_bytes() {
+                    let at = text.as_bytes().iter().zip(sink.buf.iter()).position(|(a, b)| a != b).unwrap_or(sink.buf.len().min(text.len()));
+                    return Err((
+                        format!("entry={} fault=short-write k={}", ENTRIES[entry], k),
+                        format!("{} with at most {} bytes per call delivered {} of {} bytes (first difference at {}), result ok={}", ENTRIES[entry], k, sink.buf.len(), text.len(), at, res.is_ok()),
+                    ));
+                }
+            }
+        }
+        let mut out = String::new();
+        let res = write!(out, "{}", v);
+        if res.is_err() || out != text {
+            return Err((
+                "entry=Display".to_string(),
+                format!("Display delivered {} of {} bytes into a String (result ok={})", out.len(), text.len(), res.is_ok()),
+            ));
+        }
+        let mut sink = FmtSink { out: String::new(), limit: text.len() / 2 };
+        let res = write!(sink, "{}", v);
+        if res.is_ok() || !text.starts_with(&sink.out) {
+            return Err(("entry=Display failing-sink".to_string(), format!("Display into a sink failing after {} bytes: ok={} prefix={}", text.len() / 2, res.is_ok(), text.starts_with(&sink.out))));
+        }
+        Ok(())
+    });
+    match r {
+        Err(pm) => Err(fail(format!("panic={}", panic_sig(&pm)), format!("panicked: {}", pm))),
+        Ok(Err((sig, msg))) => Err(fail(sig, msg)),
+        Ok(Ok(())) => Ok(Eval::new(true, digest_of(mv)).class("big:checked")),
+    }
+}
+
 fn g_sched() -> BS<Sched> {
     prop_oneof![
         4 => prop_oneof![Just(1usize), Just(2), Just(3), Just(5), 1usize..40].prop_map(Sched::Max),
@@ -388,6 +436,7 @@ fn run(ctx: &mut Ctx) {
     for c in children {
         ctx.absorb(c);
     }
+    ctx.run_prop("big", tier.pick(40, 400), g_big_atom(tier.pick(65536, 131072)), check_big);
     // fixed battery: the value of the design document under every k and every offset
     let battery = vec![
         MV::list(vec![MV::U(12345), MV::I(-678), MV::f(1.5), MV::Bytes(vec![200, 100])]),
@@ -414,6 +463,10 @@ fn run(ctx: &mut Ctx) {
 }
 
 fn replay(_sub: &str, case: &Json) -> Option<CaseResult> {
+    if let Some(b) = case.get("big") {
+        let mv: MV = serde_json::from_value(b.clone()).ok()?;
+        return Some(check_big(&mv));
+    }
     let mv: MV = serde_json::from_value(case.get("value")?.clone()).ok()?;
     let pi = case.get("p")?.as_u64()? as usize;
     let sched: Sched = serde_json::from_value(case.get("sched")?.clone()).ok()?;
